@@ -1,4 +1,271 @@
-import Kap.Basic
+/-
+Driver for C20: reads the cases the Go harness produced by running the REAL auth / httpd code, and for every op
+  1. evaluates the SPEC (Kap/Spec/C20.lean) on the OBSERVED output — a failure is `SPECFAIL <clause>` (or `KNOWN
+     db-collision` when the recorded deviation clause `Spec.Dev_db_collision` explains exactly this failure),
+  2. compares the observed output with the MODEL (Kap/Model/C20.lean) — a difference is `MISMATCH`.
+A case gets the worst verdict of its lines (SPECFAIL > MISMATCH > KNOWN > ok).
+-/
+import Kap.Spec.C20
+open Kap Kap.C20
 
-/-- Driver for property C20 (replaced by the property's driver). -/
-def main : IO Unit := Kap.driverMain (fun _ _ => .badop "driver not implemented")
+namespace Kap.C20.Drv
+
+def str (l : List Char) : String := String.ofList l
+def unescL (tok : String) : Option (List Char) := (unesc tok).map String.toList
+def escL (l : List Char) : String := esc (str l)
+
+def parsePrivs (s : String) : Option (List Nat) :=
+  if s.isEmpty then some [] else (s.splitOn "+").mapM String.toNat?
+
+def parseGrants (tok : String) : Option (List (Path × List Nat)) :=
+  if tok == "-" then some [] else
+  (tok.splitOn ",").mapM fun e =>
+    match e.splitOn "=" with
+    | [r, ps] => do pure ((← unescL r), (← parsePrivs ps))
+    | _ => none
+
+structure St where
+  users : List (List Char × List Char × Account) := []
+  subs : List (List Char × Account) := []
+  branches : List String := []
+  nontrivial : Bool := false
+  specfail : Option (String × String) := none
+  mismatch : Option String := none
+  known : Option (String × String) := none
+
+def St.br (st : St) (b : String) : St := if st.branches.contains b then st else { st with branches := b :: st.branches }
+def St.brs (st : St) (bs : List String) : St := bs.foldl St.br st
+def St.sf (st : St) (clause detail : String) : St := if st.specfail.isSome then st else { st with specfail := some (clause, detail) }
+def St.mm (st : St) (detail : String) : St := if st.mismatch.isSome then st else { st with mismatch := some detail }
+def St.kn (st : St) (key detail : String) : St := if st.known.isSome then st else { st with known := some (key, detail) }
+
+def St.account (st : St) (name : List Char) : Account :=
+  match st.users.find? (fun e => e.1 = name) with
+  | some (_, _, a) => a
+  | none => {}          -- the harness uses the zero auth.User for an unknown name
+
+def setUser (l : List (List Char × List Char × Account)) (n pw : List Char) (a : Account) :=
+  (n, pw, a) :: l.filter (fun e => e.1 ≠ n)
+
+def letter : Decision → Char
+  | .allow => 'A' | .deny => 'D' | .invalid => 'I' | .diverge => 'L'
+
+def fivePrivs : List Nat := [1, 2, 4, 8, 16]
+
+/-- The canonical spelling of a node. -/
+def canonical (n : Spec.Node) : Path := '/' :: join n
+
+/-- Branches of `clean` a path exercises. -/
+def cleanBranches (p : Path) : List String :=
+  if p = [] then ["clean-empty"] else
+  let rooted := isAbs p
+  let segs := split p
+  let (_, bs) := segs.foldl (fun (acc : CS × List String) s =>
+    let (st, bs) := acc
+    let b :=
+      if s = [] then "seg-empty" else if s = dot then "seg-dot"
+      else if s = dotdot then
+        (match st.stack with
+         | _ :: _ => "dotdot-pop"
+         | [] => if rooted then "dotdot-at-root" else "dotdot-kept")
+      else "seg-name"
+    (cleanStep rooted st s, b :: bs)) (({} : CS), [])
+  (if rooted then "rooted" else "relative") :: bs.eraseDups
+
+/-- Branches of `AuthorizeAction` one query exercises (read off the spec side, so that the histogram also
+shows which situations of the STATEMENT were seen). -/
+def azBranches (a : Account) (res : Path) (want : Nat) : List String :=
+  if want = noPriv then ["early-noprivileges"]
+  else if a.admin then ["early-admin"]
+  else if !isAbs res then ["invalid-relative"]
+  else if a.user.privs.isEmpty then ["no-privileges-at-all"]
+  else
+    let dirty := if clean res ≠ res then ["resource-cleaned"] else []
+    match Spec.nodeOf res with
+    | none => []
+    | some n =>
+      match Spec.nearestGrant a.grants n with
+      | none => "walk-to-root-no-grant" :: dirty
+      | some (anc, ps) =>
+        let mask := orMask ps
+        let ok := authorized mask want
+        let wher := if anc.length = n.length then "grant-on-self" else if anc.isEmpty then "grant-on-root" else "grant-on-ancestor"
+        let how :=
+          if ok then (if mask = allPriv then "allow-by-all" else "allow-by-bit")
+          else if mask &&& allPriv ≠ 0 then "deny-all-plus-other-bits" else "deny"
+        -- would a farther grant have decided otherwise?
+        let farther := (Spec.ancestors anc).drop 1 |>.filterMap (fun x => Spec.grantAt a.grants x)
+        let shadow :=
+          if !ok && farther.any (fun q => authorized (orMask q) want) then ["nearer-denies-farther-allows"]
+          else if ok && farther.any (fun q => !authorized (orMask q) want) then ["nearer-allows-farther-denies"]
+          else []
+        wher :: how :: (shadow ++ dirty)
+
+def checkAz (st : St) (line : String) (a : Account) (res : Path) (wants : List Nat) (obs : String) (specToo : Bool) : St := Id.run do
+  let mut st := st
+  let model := String.ofList (wants.map (fun w => letter (authorizeAction a.user res w)))
+  if specToo then
+    if !Spec.wfGrants a.grants then return st.mm s!"ill-formed table in generated case: {line}"
+    for (w, c) in wants.zip obs.toList do
+      if c = 'P' then st := st.sf "no-panic" line
+      else match Spec.judgeDecision a res w (c = 'A') with
+        | some clause => st := st.sf clause s!"{line} privilege {w} observed {c}"
+        | none => pure ()
+  if obs != model then st := st.mm s!"{line}: model {model} observed {obs}"
+  for w in wants do
+    let bs := azBranches a res w
+    st := st.brs bs
+    if bs.contains "grant-on-ancestor" || bs.contains "nearer-denies-farther-allows" then st := { st with nontrivial := true }
+  return st
+
+def parseAuth (tok : String) : Option ReqAuth :=
+  match tok.splitOn "," with
+  | [kind, f1, f2, f3, qu, qp] => do
+    let qu ← unescL qu; let qp ← unescL qp
+    match kind with
+    | "absent" => pure { header := .absent, qu, qp }
+    | "other" => pure { header := .other, qu, qp }
+    | "basic" => pure { header := .basic (← unescL f1) (← unescL f2), qu, qp }
+    | "bearer" =>
+      let exp : Option Int := if f2 == "n" then none else f2.toInt?
+      if f2 != "n" && exp.isNone then none
+      let un : Option (List Char) ← (if f3 == "!none" then pure none else (unescL f3).map some)
+      pure { header := .bearer { sigOK := f1 == "1", exp, username := un }, qu, qp }
+    | _ => none
+  | _ => none
+
+/-- Routes the harness adds through `Handler.AddRoutes` (which prepends BasePath). -/
+def harnessRoutes : List Route :=
+  allowedMethods.flatMap fun m => [⟨m, base ++ "/tasks".toList, .recorder⟩, ⟨m, base ++ "/tasks/".toList, .recorder⟩]
+
+def httpBranches (cfg : Cfg) (req : Req) (out : HttpOut) : List String :=
+  let b1 :=
+    if !allowedMethods.contains req.method then ["http-unknown-method-404"]
+    else if muxCleanPath req.path ≠ req.path then ["http-unclean-path-301"]
+    else if req.method = "OPTIONS".toList then ["http-options-cors"]
+    else match authenticate cfg.requireAuth cfg.svc req.auth with
+      | .rejected => ["http-401-" ++ (match parseCredentials req.auth with
+          | none => "no-credentials"
+          | some c => match c.method with | .user => "user" | .bearer => "bearer" | .subscription => "subscription" | .other => "other")]
+      | .inner u _ =>
+        let m := match parseCredentials req.auth with
+          | none => "none"
+          | some c => match c.method with | .user => "user" | .bearer => "bearer" | .subscription => "subscription" | .other => "other"
+        let how := if cfg.requireAuth then ["http-authenticated-" ++ m] else ["http-auth-disabled-admin"]
+        if !authorizeRequest req.method req.path u then "http-403" :: how else how
+  let b2 := (if out.served then ["http-served"] else []) ++ (if out.wrote then ["http-wrote"] else []) ++
+    (if out.status = 400 then ["http-write-no-db-400"] else []) ++
+    (if out.status = 404 ∧ out.user.isSome then ["http-404-after-auth"] else []) ++
+    (if out.status = 401 ∧ out.user.isSome then ["http-write-db-refused-401"] else []) ++
+    (if preview.isPrefixOf req.path ∧ out.user.isSome then ["http-preview-rewrite"] else [])
+  b1 ++ b2
+
+def judge (_id : String) (lines : Array String) : Verdict := Id.run do
+  let mut st : St := {}
+  for l in lines do
+    let (opT, obs) := splitObs (tokens l)
+    match opT with
+    | ["user", n, pw, adm, g] =>
+      let some n := unescL n | return .badop l
+      let some pw := unescL pw | return .badop l
+      let some g := parseGrants g | return .badop l
+      st := { st with users := setUser st.users n pw { admin := adm == "1", grants := g } }
+    | ["sub", tok, adm, g] =>
+      let some tok := unescL tok | return .badop l
+      let some g := parseGrants g | return .badop l
+      st := { st with subs := (tok, { admin := adm == "1", grants := g }) :: st.subs.filter (fun e => e.1 ≠ tok) }
+    | ["az", n, r] =>
+      let some n := unescL n | return .badop l
+      let some r := unescL r | return .badop l
+      let [o] := obs | return .badop l
+      st := checkAz st l (st.account n) r fivePrivs o true
+    | ["azp", n, r, p] =>
+      let some n := unescL n | return .badop l
+      let some r := unescL r | return .badop l
+      let some p := p.toNat? | return .badop l
+      let [o] := obs | return .badop l
+      st := checkAz st l (st.account n) r [p] o (Spec.validPriv p)
+    | ["clean", p] =>
+      let some p := unescL p | return .badop l
+      let [o] := obs | return .badop l
+      let some o := unescL o | return .badop l
+      -- spec: the cleaned path is the canonical spelling of the node the path denotes
+      match Spec.nodeOf p with
+      | some n => if o ≠ canonical n then st := st.sf "clean-is-canonical-spelling" s!"{l}: canonical {escL (canonical n)}"
+      | none => if isAbs o then st := st.sf "relative-stays-relative" l
+      if o ≠ clean p then st := st.mm s!"{l}: model {escL (clean p)}"
+      st := st.brs (cleanBranches p)
+    | ["dir", p] =>
+      let some p := unescL p | return .badop l
+      let [o] := obs | return .badop l
+      let some o := unescL o | return .badop l
+      if o ≠ dir p then st := st.mm s!"{l}: model {escL (dir p)}"
+      st := st.br "dir"
+    | ["api", p] =>
+      let some p := unescL p | return .badop l
+      let [o] := obs | return .badop l
+      let some o := unescL o | return .badop l
+      match Spec.nodeOf ("/api/".toList ++ p) with
+      | some n => if o ≠ canonical n then st := st.sf "api-resource-canonical" s!"{l}: canonical {escL (canonical n)}"
+      | none => pure ()
+      if o ≠ apiResource p then st := st.mm s!"{l}: model {escL (apiResource p)}"
+      st := st.br (if (Spec.nodeOf ("/api/".toList ++ p)).map (·.head?) = some (some "api".toList) then "api-below-root" else "api-escaped-root")
+    | ["dbres", d] =>
+      let some d := unescL d | return .badop l
+      let [o] := obs | return .badop l
+      let some o := unescL o | return .badop l
+      -- spec: a database is ONE path element below /database, whatever its name contains
+      match Spec.nodeOf o with
+      | some n =>
+        let want := if d = [] then 1 else 2
+        if n.length ≠ want ∨ n.head? ≠ some "database".toList ∨ o ≠ canonical n then
+          st := st.sf "database-is-one-element" l
+      | none => st := st.sf "database-is-one-element" l
+      if o ≠ databaseResource d then st := st.mm s!"{l}: model {escL (databaseResource d)}"
+      st := st.br (if d = [] then "db-empty" else if d.contains '/' then "db-dirty" else "db-clean")
+    | ["dbpair", a, b] =>
+      let some a := unescL a | return .badop l
+      let some b := unescL b | return .badop l
+      let [oa, ob] := obs | return .badop l
+      let some oa := unescL oa | return .badop l
+      let some ob := unescL ob | return .badop l
+      if a ≠ b ∧ oa = ob then
+        if Spec.Dev_db_collision a b then
+          st := (st.kn "db-collision" l).br "db-collision"
+          st := { st with nontrivial := true }
+        else st := st.sf "database-names-injective" l
+      else st := st.br "db-pair-distinct"
+      if oa ≠ databaseResource a ∨ ob ≠ databaseResource b then
+        st := st.mm s!"{l}: model {escL (databaseResource a)} {escL (databaseResource b)}"
+    | ["http", ra, m, p, cred, db] =>
+      let some m := unescL m | return .badop l
+      let some p := unescL p | return .badop l
+      let some db := unescL db | return .badop l
+      let some au := parseAuth cred | return .badop l
+      let cfg : Cfg := { requireAuth := ra == "1", svc := { users := st.users, subs := st.subs }, extra := harnessRoutes }
+      let req : Req := { method := m, path := p, auth := au, db := db }
+      let out := serveHTTP cfg 2 req
+      match obs with
+      | [code, sv, wr] =>
+        let served := sv == "1"; let wrote := wr == "1"
+        if served && !Spec.servedOK cfg.requireAuth cfg.svc req then
+          st := st.sf "served-only-authenticated-and-authorised" l
+        if wrote && !Spec.wroteOK databaseResource cfg.requireAuth cfg.svc req then
+          st := st.sf "write-checks-api-and-database" l
+        if (served || wrote) && muxCleanPath p ≠ p then
+          st := st.sf "path-trick-never-served" l
+        let model := s!"{out.status} {boolTok out.served} {boolTok out.wrote}"
+        if s!"{code} {sv} {wr}" != model then st := st.mm s!"{l}: model {model}"
+        st := st.brs (httpBranches cfg req out)
+        if cfg.requireAuth && (served || wrote) then st := { st with nontrivial := true }
+      | _ => st := st.mm s!"{l}: unexpected observation"
+    | _ => return .badop l
+  match st.specfail, st.mismatch, st.known with
+  | some (c, d), _, _ => return .specfail c d
+  | none, some d, _ => return .mismatch d
+  | none, none, some (k, d) => return .known k d
+  | none, none, none => return .ok st.nontrivial st.branches.reverse
+
+end Kap.C20.Drv
+
+def main : IO Unit := Kap.driverMain Kap.C20.Drv.judge
